@@ -1,10 +1,10 @@
 import json, os, re
 
 SPEC = {
-    "lean_modules": ["SemaModel.C17.Props", "SemaModel.C17.Tie"],
-    "lean_dirs": ["SemaModel/C17"],
+    "lean_modules": ["SemaModel.C17.Props", "SemaModel.C17.Tie", "SemaModel.ClusterCompose.Props"],
+    "lean_dirs": ["SemaModel/C17", "SemaModel/ClusterCompose"],
     "harness": "c17",
-    "harness_args": {"quick": ["-n", 400, "-big", 15, "-curate", 3000, "-fault", 24], "thorough": ["-n", 3000, "-big", 100, "-curate", 50000, "-fault", 160]},
+    "harness_args": {"quick": ["-n", 400, "-big", 15, "-curate", 3000, "-fault", 24, "-cluster", 16], "thorough": ["-n", 3000, "-big", 100, "-curate", 50000, "-fault", 160, "-cluster", 150]},
     "timeout": {"quick": 900, "thorough": 3000},
     "level": "proof",
     "tie": "T1: cluster/actions.go curateFailedPoints is translated to SemaModel/Generated/Curate.lean on every run (slices.SortFunc abstract, slices.BinarySearchFunc = Go.binarySearchFunc of Base/GoRt.lean); C17_tie proves that the model's curateWith / binarySearch compute the same for all inputs (uuids read as big-endian numbers). T3: go/cmd/c17 builds fresh clusters of 1..3 real in-process servers (NewNode + Serve on loopback) with small per-shard point limits (1..8 shards per collection), drives insert / update / delete / search through every live entry node, stops one server in many scenarios, and runs the Lean model on the same op lines; what is an oracle for the model (placement of inserted points, each shard's answer to a query) is read from the shards directly; the property oracles are evaluated on the real responses; the real curateFailedPoints is also called directly through cluster/verif_export.go; fault scenarios (go/cmd/c17/fault.go, faultnet.go): real nodes whose RPC service runs on a transport the harness controls (requests swallowed past the time-out, connections killed mid-call / during the back-off / while idle so that the caller's cached client is shut down, dials refused), RpcRetries 1..3, update / delete / search and single calls of the real internalRoute under those scripts, with 'which shard's handler completed' measured by a recorder in front of the handlers and the Lean model of the retry loop run on the scripted event list. T2: the control skeleton of internalRoute's retry loop (Generated/FactsC17.routeSkeleton); Generated/FactsC17.lean pins the constants (as float32 bit patterns, used by the driver) and the expression text of the per-shard limit, the offset rule, the cut and the score comparison of ClusterNode.SearchPoints",
@@ -19,8 +19,17 @@ SPEC = {
         "Sema.C17.C17_failed_message_routed", "Sema.C17.C17_failed_message_delete", "Sema.C17.C17_failed_message_routed_delete", "Sema.C17.C17_search_routed",
         "Sema.C17.C17_failed_count_delete", "Sema.C17.C17_failed_count_update", "Sema.C17.C17_curate_count",
         "Sema.C17.C17_tie", "Sema.C17.C17_tie_sorted",
+        # the cluster-level composition C13 + C14 + C15 + C16 + C17 (SemaModel/ClusterCompose, notes/ClusterCompose.md)
+        "Sema.ClusterCompose.Cluster_entry_independent",
+        "Sema.ClusterCompose.Cluster_refines_collection", "Sema.ClusterCompose.Cluster_refines_init",
+        "Sema.ClusterCompose.Cluster_refines_readout", "Sema.ClusterCompose.Cluster_refines_search", "Sema.ClusterCompose.Cluster_refines_limits",
+        "Sema.ClusterCompose.Cluster_refines_listed", "Sema.ClusterCompose.Cluster_refines_side",
+        "Sema.ClusterCompose.Cluster_tenant_isolation",
+        "Sema.ClusterCompose.Cluster_sync_preserves", "Sema.ClusterCompose.Cluster_sync_exists",
+        "Sema.ClusterCompose.Cluster_sync_add", "Sema.ClusterCompose.Cluster_sync_remove", "Sema.ClusterCompose.Cluster_sync_side",
     ],
     "trusted_base": [
+        "SemaModel/ClusterCompose/Model.lean (the composed cluster model: per server a node database and a shard store, the operations of cluster/actions.go written over C13.owner, C15.distribute / overQuota, C16.key / scanPrefix, C17.updatePoints / deletePoints / searchPoints; C14's St / round for Sync) is tied to the code by a second correspondence run: the compiled composed model (`semadriver C17 cluster`) answers the op lines of go/cmd/c17/compose.go — 1..3 real in-process servers, every node configured with its own permutation of the server list, several tenants whose ids are prefixes of each other, create / insert / update / delete / get / drop through every node — and a dump of EVERY node (the records of its node database, every shard directory on its disk with its points) after every few calls; the abstract hash of the theorems is instantiated by the real one (score lines: xxhash.Sum64String(key + server) for every routed key and server); the shard uuids RPCCreateShard draws are read back and passed to the model; not in this stream: search (the main stream covers the merge), Sync (C14's harness), refused shard batches, failures",
         "the hand-written model SemaModel/C17/Model.lean (transcription of cluster/actions.go UpdatePoints, DeletePoints, curateFailedPoints incl. the loop of slices.BinarySearchFunc, SearchPoints); mitigated by the line-by-line correspondence on real clusters",
         "slices.SortFunc (pdqsort) returns a sorted permutation of its input (assumed; the theorems hold for every such function, the driver uses insertion sort); ties are compared as groups",
         "one shard = a finite map id -> payload with paging = drop offset / take limit of its ranking (shard/shard.go); ranking inside a shard is C03-C06 and is an oracle argument here; placement of inserted points (distributePoints) is C15 and is an oracle argument",
@@ -31,8 +40,61 @@ SPEC = {
         "values of sort properties are int64 or string after msgpack decoding (what the harness stores); other reflect kinds of utils.CompareAny are not modelled",
     ],
     "assumptions": ["point ids are unique per collection (the API's requirement; stated in the property)",
+                    "the composition (SemaModel/ClusterCompose): all servers up and every RPC delivered and answered; requests one at a time; user ids without '/'; every insert satisfies InsertOK (ids new to the collection, C15's fits, fresh shard uuids); NoTies on the routed keys; Sync: no client traffic and no failure during the round, every server that holds something is started",
                     "xxhash gives distinct rendezvous scores for distinct servers (C13)"],
 }
+
+
+def run(ctx):
+    """The standard correspondence (C17 model on ops.txt) and the cluster-level correspondence of the COMPOSED model
+    of SemaModel/ClusterCompose (`semadriver C17 cluster` on cluster/ops.txt: API calls through every entry node and
+    dumps of every node's records and shard directories)."""
+    r = ctx["runner"]
+    rundir, tier = ctx["rundir"], ctx["tier"]
+    res = {"stats": {}, "disagreements": [], "compared": 0, "broken": []}
+    if not ctx["hok"]:
+        return res
+    args = [ctx["hbin"], "-seed", str(ctx["seed"]), "-out", rundir] + [str(a) for a in SPEC["harness_args"][tier]]
+    rc, hout, dt = r.sh(args, env=r.GOENV, timeout=SPEC["timeout"][tier])
+    r.log(f"harness c17: rc={rc} ({dt:.1f}s)")
+    if rc != 0 or not os.path.exists(os.path.join(rundir, "stats.json")):
+        res["broken"].append(("harness-run", "c17", hout[-3000:]))
+        return res
+    stats = json.load(open(os.path.join(rundir, "stats.json")))
+    res["stats"] = stats
+    if not ctx["dok"]:
+        res["broken"].append(("driver-build", "semadriver", "lake build semadriver failed"))
+        return res
+    p = lambda *a: os.path.join(rundir, *a)
+    ok, err = r.run_driver("C17", p("ops.txt"), p("model.txt"))
+    if not ok:
+        res["broken"].append(("driver-run", "semadriver C17", err[-2000:]))
+    else:
+        dis, n = r.diff_lines(p("ops.txt"), p("impl.txt"), p("model.txt"))
+        res["disagreements"] += dis
+        res["compared"] += n
+    if os.path.exists(p("cluster", "ops.txt")):
+        ok2, err2 = r.run_driver("C17", p("cluster", "ops.txt"), p("cluster", "model.txt"), ("cluster",))
+        if not ok2:
+            res["broken"].append(("driver-run", "semadriver C17 cluster", err2[-2000:]))
+        else:
+            dis, n = r.diff_lines(p("cluster", "ops.txt"), p("cluster", "impl.txt"), p("cluster", "model.txt"))
+            for d in dis:
+                d["mode"] = "composed cluster model (semadriver C17 cluster); replay the scenario from its newcluster line up to this line"
+            res["disagreements"] += dis
+            res["compared"] += n
+            cst = json.load(open(p("cluster", "stats.json")))
+            stats["cluster_op_lines"] = cst.get("evaluations", 0)
+            stats["cluster_distinct_nontrivial"] = cst.get("distinct_nontrivial", 0)
+            stats["cluster_configurations"] = cst.get("configurations", {})
+            for k, v in cst.get("distribution", {}).items():
+                stats.setdefault("distribution", {})["cluster:" + k] = v
+                if k != "score":
+                    stats["evaluations"] = stats.get("evaluations", 0) + v
+            stats["samples"] = stats.get("samples", []) + [x[:400] for x in cst.get("samples", []) if not x.startswith("score")][:4]
+    else:
+        res["broken"].append(("harness-run", "c17 -cluster", "the harness wrote no cluster/ops.txt"))
+    return res
 
 
 def search(ctx):
